@@ -20,4 +20,10 @@ MCNums == {<<0, 0>>, <<3, 0>>, <<12, 0>>, <<120, 0>>, <<-7, 0>>, <<1234567, 0>>,
            <<125, 3>>, <<-125, 3>>, <<5, 3>>, <<1005, 3>>, <<145, 3>>, <<9995, 3>>,
            <<45, 2>>, <<-125, 2>>, <<2675, 3>>, <<4, 1>>, <<49, 2>>, <<51, 2>>,
            <<123456, 2>>, <<999999, 3>>, <<5, 4>>, <<15, 4>>, <<-5, 4>>, <<12, 4>>}
+\* numbers whose decimal point is moved through every magnitude from 10^-25 to
+\* 10^22 or so: 1 (10^21 is "1E+21", 10^-5 is "0.00001") and -2.5 (a digit
+\* after the point of the exponent notation: "-2.5E-21"); the thorough tier
+\* adds 1203 and random numbers of up to nine digits
+MCScaled == {<<1, 0>>, <<-25, 1>>}
+MCScaleJ == -22..25
 ====
